@@ -337,7 +337,12 @@ def run(ctx: Ctx, tier: str) -> Result:
     res.analysed["proto Metric fields"] = mfields
     for param, pat in want.items():
         src = norm(b[param]) if param in b else ""
-        if pat in src and (param != "metric_type" or src.endswith(".type)")):
+        el_ = None
+        if param == "metric_type" and param in b:
+            from .common import enum_lookup
+            el_ = enum_lookup(ctx, b[param], cm)
+            el_ = el_ if el_ is not None and el_[0] == "MetricType" and el_[1] == "Name" and norm(el_[2]).endswith(".type") else None
+        if pat in src and (param != "metric_type" or src.endswith(".type)")) or el_ is not None:
             res.ok("C11.METRIC", {param: src})
         else:
             res.fail(Finding("C11.METRIC", cm.qname, param, cm.loc(mcalls[0]), "MetricDefinition.%s receives `%s` (expected the proto field matching %s)" % (param, src, pat)))
